@@ -71,9 +71,12 @@ impl Engine for C19 {
                     for keyed in [true, false] {
                         for fl in [Fl::Sync, Fl::Async] {
                             n += 1;
-                            let pre_reads = if oneshot { vec![] } else { [vec![], vec![1], vec![7], vec![9, 20000], vec![len + 10]][n % 5].clone() };
+                            let pre_reads = if oneshot { vec![] } else { [vec![], vec![1], vec![7], vec![9, 20000], vec![len + 10], vec![usize::MAX], vec![3, usize::MAX]][n % 7].clone() };
                             let post = [Post::None, Post::Modify, Post::Truncate, Post::Remove, Post::Replace][(n / 2) % 5];
-                            let link = mk_link(if keyed { Some(0) } else { None }, relative, oneshot, ALGOS[n % 5], pre_reads, if n % 3 == 0 { Declare::Exact } else { Declare::None }, if n % 4 == 0 { IntegDecl::Correct } else { IntegDecl::None });
+                            let mut link = mk_link(if keyed { Some(0) } else { None }, relative, oneshot, ALGOS[n % 5], pre_reads, if n % 3 == 0 { Declare::Exact } else { Declare::None }, if n % 4 == 0 { IntegDecl::Correct } else { IntegDecl::None });
+                            // the relative target spelled through a symlinked directory and `..`
+                            link.dotdot_via_symlink = relative && (n / 4) % 2 == 1;
+                            link.vectored_reads = !oneshot && n % 3 == 1;
                             out.push(Case { blob: Blob::new(len, 70 + n as u64), link, fl, cwd_depth: (n % 4) as u8, preexisting: n % 6 == 0, post });
                         }
                     }
@@ -113,9 +116,10 @@ impl Engine for C19 {
                 if let Some(k) = &mut link.key {
                     *k = 0;
                 }
-                if !link.oneshot {
+                if !link.oneshot && link.pre_reads != vec![usize::MAX] {
                     link.pre_reads = pre;
                 }
+                link.dotdot_via_symlink = relative && cwd_depth % 2 == 1 && preexisting == (link.blob == 0);
                 Case { blob, link, fl, cwd_depth, preexisting, post }
             })
             .boxed()
@@ -263,6 +267,12 @@ impl Engine for C19 {
         }
         if !c.link.pre_reads.is_empty() {
             st.class("partial_reads_before_commit");
+        }
+        if c.link.pre_reads.contains(&usize::MAX) {
+            st.class("read_to_end_before_commit");
+        }
+        if c.link.dotdot_via_symlink {
+            st.class("relative_target_through_symlink_and_dotdot");
         }
         if c.post != Post::None {
             st.class("target_changed_after_linking");
